@@ -24,6 +24,19 @@ def is_supported_type(x):
     return not (isinstance(x, str) or is_jagged_array(x))
 
 
+def compiled_divide(a, b):
+    """Divide (a%b) as emitted by compile_expr_ir.
+
+    Klong's Divide answers :undefined when the divisor is a scalar equal to 0
+    (eval_dyad_divide), whereas Python raises for its own scalars and NumPy/torch
+    scalars give inf or nan.  Compiled code cannot return :undefined for one verb in
+    the middle of an expression, so it raises and the caller falls back to the interpreter.
+    """
+    if getattr(b, 'ndim', 0) == 0 and b == 0:
+        raise ZeroDivisionError("a scalar divisor of 0 is :undefined")
+    return a / b
+
+
 class BackendProvider(ABC):
     """Abstract interface for array backends."""
 
